@@ -6,3 +6,4 @@ open PgmVerif
 #print axioms PgmVerif.C01_sum_swap
 #print axioms PgmVerif.C01_virtual_evidence
 #print axioms PgmVerif.C01_barren_leaf
+#print axioms PgmVerif.C01_likelihood_scale
